@@ -129,4 +129,18 @@ theorem gen_parseRule_eq (po : ParseOpts) (line : List Char) : Gen.rrsParseRule 
     simp only [bind, Except.bind]
     try (cases (ICal.splitOnChar ';' v).foldlM (stepPair po) {} <;> rfl)
 
+theorem splitOnChar_ne_nil (sep : Char) (s : List Char) : (ICal.splitOnChar sep s).isEmpty = false := by
+  have := (splitOnChar_go_len sep s [] []).1
+  unfold ICal.splitOnChar
+  cases h : ICal.splitOnChar.go sep s [] [] with
+  | nil => rw [h] at this; simp at this
+  | cons a l => rfl
+
+/-- **the translated body of the line dispatch loop of `_parse_rfc` is the model's `stepLine`** (`if not parms: raise …` can never fire:
+    `str.split` returns at least one piece) -/
+theorem gen_stepLine_eq (po : ParseOpts) (acc : Acc) (line : List Char) : Gen.rrsStepLine po acc line = stepLine po acc line := by
+  unfold Gen.rrsStepLine stepLine
+  simp only [splitOnChar_ne_nil, Bool.false_eq_true, if_false]
+  rfl
+
 end RRuleStr
